@@ -379,6 +379,19 @@ func (i *interpreter) resolveExternal(fn *ssa.Function) externalFn {
 		return func(fr *frame, a []value) value { fr.i.stub("runtime.Stack=0"); return 0 }
 	case "time.Now":
 		return func(fr *frame, a []value) value { return structure{uint64(0), fr.i.clockTick(), (*value)(nil)} }
+	case "time.After":
+		// the timer may fire at any moment: the channel is ready at once, so a select explores the timeout
+		// branch next to every other ready case (and a plain receive does not wait)
+		return func(fr *frame, a []value) value {
+			i := fr.i
+			i.stub("time.After = a channel that may deliver at any moment")
+			i.nextChanID++
+			ch := &chanv{id: i.nextChanID, cap: 1, elemT: fn.Signature.Results().At(0).Type().Underlying().(*types.Chan).Elem()}
+			e := i.logEvent(fr.th, "chsend", ch.id, 0, "", fr)
+			ch.buf = append(ch.buf, structure{uint64(0), i.clockTick(), (*value)(nil)})
+			ch.bufEv = append(ch.bufEv, e)
+			return ch
+		}
 	case "time.Since":
 		return func(fr *frame, a []value) value {
 			now := fr.i.clockTick()
